@@ -337,7 +337,7 @@ func TestC13(t *testing.T) {
 		r.Eval()
 		r.Class(strings.SplitN(c.Note, ":", 2)[0])
 		lexOK := false
-		if _, err := lexer.Tokenize(input); err == nil {
+		if _, err := safeTokenize(input); err == nil {
 			lexOK = true
 		}
 		kind, msg, stage := checkTotal(c)
